@@ -68,6 +68,7 @@ class LP_Solver:
         """
 
         self.info_string = ''
+        self.num_solves = 0
         self.solver = pulp.PULP_CBC_CMD(
             msg=msg, 
             timeLimit=timeLimit, 
@@ -80,7 +81,10 @@ class LP_Solver:
 
         self.run_optimisations(self.optimisation_options)
 
-        if len(self.optimisation_options) == 0:
+        # Without optimisations, or when none of them had anything to optimise 
+        # (e.g. a generous cut-off beyond the last rank), the model is solved 
+        # as it stands.
+        if self.num_solves == 0:
             self.prob.solve(self.solver)
 
         self.model.info_string = self.info_string
@@ -301,8 +305,10 @@ class LP_Solver:
             if opt == Optimisation_options.MINCOSTLSB:
                 self.optimisation_mincostlsb(additional_arguments)
 
-            # Exit early if one of the optimisations is not solved.
-            if not LpStatus[self.prob.status] == self.model.OPTIMAL_PULP_STATUS:
+            # Exit early if one of the optimisations is not solved (an 
+            # optimisation with an empty rank range performs no solve).
+            if (self.num_solves > 0 and 
+                not LpStatus[self.prob.status] == self.model.OPTIMAL_PULP_STATUS):
                 return None
 
     
@@ -510,6 +516,7 @@ class LP_Solver:
 
         '''
 
+        self.num_solves += 1
         if optimisation_type == Optimisation_type.MAXIMISE:
             self.prob.objective = objective_function
             self.prob.solve(self.solver)
